@@ -94,6 +94,24 @@ pub fn compare_documents(a: &Buffer, b: &Buffer) -> Option<(String, Value)> {
         } else if la.default_font_page != lb.default_font_page {
             field = Some(("default-font-page", json!({"saved": la.default_font_page, "loaded": lb.default_font_page})));
         }
+        if field.is_none() && la.role == icy_engine::Role::Image {
+            // an image layer is its picture: size, scales and RGBA bytes
+            let (sa, sb) = (la.sixels.first(), lb.sixels.first());
+            match (sa, sb) {
+                (Some(x), Some(y)) => {
+                    if x.get_size() != y.get_size() || x.vertical_scale != y.vertical_scale || x.horizontal_scale != y.horizontal_scale {
+                        field = Some(("image-size", json!({"saved": [x.get_width(), x.get_height()], "loaded": [y.get_width(), y.get_height()]})));
+                    } else if x.picture_data != y.picture_data {
+                        field = Some(("image-data", json!({"saved_len": x.picture_data.len(), "loaded_len": y.picture_data.len()})));
+                    }
+                }
+                (a, b) => {
+                    if a.is_some() != b.is_some() || la.sixels.len() != lb.sixels.len() {
+                        field = Some(("image-missing", json!({"saved": la.sixels.len(), "loaded": lb.sixels.len()})));
+                    }
+                }
+            }
+        }
         if let Some((f, mut d)) = field {
             d["layer"] = json!(i);
             return Some((format!("layer|{f}"), d));
@@ -211,6 +229,12 @@ pub fn gen_layer(rng: &mut Rng, idx: usize, pages: &[u16], ncol: u32, big: bool)
     l.transparency = if rng.bool() { 0 } else { rng.byte() };
     l.color = if rng.chance(1, 3) { Some((rng.byte(), rng.byte(), rng.byte())) } else { None };
     l.default_font_page = *rng.pick(pages);
+    if idx > 0 && rng.chance(1, 8) {
+        // an image layer (role Image): a sixel picture of 1..=40 x 1..=30 pixels, no cells
+        let (pw, ph) = (1 + rng.usize(40) as i32, 1 + rng.usize(30) as i32);
+        l.image = Some((pw, ph, rng.bytes((pw * ph * 4) as usize)));
+        return l;
+    }
     let density = *rng.pick(&[0u64, 20, 60, 100]);
     for y in 0..h {
         // rows ending before / at the layer width
@@ -372,11 +396,11 @@ impl Prop for C07 {
         "C07"
     }
     fn rule(&self) -> &'static str {
-        "documents with 1..=6 layers (sizes 0..=200 x 0..=120, mostly <= 40x20 because every save PNG-encodes a preview; offsets -50..=50; all combinations of visible / locked / position-locked / alpha / alpha-locked; modes normal/chars/attributes; colour tags; transparency; Unicode and 300-character titles; rows ending before and at the layer width; short-form and long-form cells incl. characters > 0xFFFF, colours > 255 and the transparent colour; attribute flags), palettes of 1..=300 colours (also prefixes, the whole, extensions and one-colour variations of the stock DOS palette), font slots from {0,1,2,5,42,100,255,256,300} with built-in pages 0..=42 (also in slot 0: names longer than the SAUCE font field) and custom fonts of height 8/14/16/19/32 (also in slot 0, whose size the preview uses), every referenced page present, with and without SAUCE, are saved with Buffer::to_bytes(\"icy\", lossles_output) and loaded with Buffer::from_bytes; a field-by-field comparator checks buffer size and modes, every layer property, every cell inside the layer size (invisible cells as invisible only), the palette, every font slot (name, size, length, glyph bytes) and the SAUCE fields. distinct_nontrivial = distinct (size, layer shapes and flags, fonts, palette length) documents"
+        "documents with 1..=6 layers (one in eight above the first an image layer: role Image with a sixel picture of up to 40x30 pixels; sizes 0..=200 x 0..=120, mostly <= 40x20 because every save PNG-encodes a preview; offsets -50..=50; all combinations of visible / locked / position-locked / alpha / alpha-locked; modes normal/chars/attributes; colour tags; transparency; Unicode and 300-character titles; rows ending before and at the layer width; short-form and long-form cells incl. characters > 0xFFFF, colours > 255 and the transparent colour; attribute flags), palettes of 1..=300 colours (also prefixes, the whole, extensions and one-colour variations of the stock DOS palette), font slots from {0,1,2,5,42,100,255,256,300} with built-in pages 0..=42 (also in slot 0: names longer than the SAUCE font field) and custom fonts of height 8/14/16/19/32 (also in slot 0, whose size the preview uses), every referenced page present, with and without SAUCE, are saved with Buffer::to_bytes(\"icy\", lossles_output) and loaded with Buffer::from_bytes; a field-by-field comparator checks buffer size and modes, every layer property incl. the role (image layers: picture size, scales and RGBA bytes), every cell inside the layer size (invisible cells as invisible only), the palette, every font slot (name, size, length, glyph bytes) and the SAUCE fields. distinct_nontrivial = distinct (size, layer shapes and flags, fonts, palette length) documents"
     }
     fn meta(&self, ctx: &Ctx) -> Value {
         json!({"floor_evaluations": 500, "floor_distinct": ctx.tier.pick(500u64, 10000u64),
-               "assumptions": ["image layers (role Image with sixel data) are not generated", "font slot 0 is always present (the embedded preview is rendered with it)"]})
+               "assumptions": ["font slot 0 is always present (the embedded preview is rendered with it)"]})
     }
     fn total(&mut self, ctx: &Ctx) -> u64 {
         ctx.tier.pick(10_000, 60_000)
